@@ -106,6 +106,26 @@ def views (s : ScaleProps α) : Views α :=
 /-- `densityProfile = P / (KBOLTZ * T)` -/
 def density (kb : α) (p t : List α) : List α := List.zipWith (fun pi ti => pi / (kb * ti)) p t
 
+/-! ### length units (`taurex.util.util.conversion_factor` between multiples of the metre)
+
+`calculate_scale_properties(T, Pl, mu, length_units=u)` multiplies altitudes, scale heights, gravities and thicknesses by
+`conversion_factor('m', u)`; `get_planet_radius(u)` / `set_planet_radius(v, u)` convert with the same function. -/
+
+/-- the size of a metre multiple in metres (`none`: not a metre multiple) -/
+def metresPer [OfNat α 10] : String → Option α
+  | "m" => some 1
+  | "km" => some (10 * 10 * 10)
+  | "cm" => some (1 / (10 * 10))
+  | "mm" => some (1 / (10 * 10 * 10))
+  | "um" => some (1 / (10 * 10 * 10 * (10 * 10 * 10)))
+  | _ => none
+
+/-- `conversion_factor(from, to)`: a length of `x` units `from` is `x * factor` units `to` -/
+def lengthFactor [OfNat α 10] (fromU toU : String) : Option α :=
+  match metresPer (α := α) fromU, metresPer (α := α) toU with
+  | some a, some b => some (a / b)
+  | _, _ => none
+
 end
 
 /-! ### the dictionary of stored profiles (`taurex/util/output.py: generate_profile_dict`,
